@@ -28,6 +28,10 @@ type c11Case struct {
 	Readers  int   `json:"readers"`
 	Flushers int   `json:"flushers"`
 	Rounds   int   `json:"rounds"`
+	// Departers: 0/1 goroutine that keeps opening Modify sessions whose transport fails while a request of
+	// several operations is being answered.  Abandoners: Get readers that go away mid-stream (at once or after a stall).
+	Departers  int `json:"departers,omitempty"`
+	Abandoners int `json:"abandoners,omitempty"`
 }
 
 type sessLog struct {
@@ -81,6 +85,30 @@ func runCase(c c11Case) (problem string, stats map[string]int) {
 		}
 		sess[i], uuids[i], logs[i] = s, s.UUID, &sessLog{}
 	}
+	if c.Abandoners > 0 {
+		// something to stream: session 0 announces (0,1) and installs two next-hops and four groups per instance
+		el := drv.U128{Lo: 1}
+		if rs, err := sess[0].SendN(&spb.ModifyRequest{ElectionId: el.Proto()}, 1); err != nil || len(rs) != 1 {
+			return fmt.Sprintf("prelude announce: %v", err), stats
+		}
+		logs[0].announced = append(logs[0].announced, el)
+		m := &spb.ModifyRequest{}
+		id := uint64(80) << 32
+		for _, ni := range []int{1, 2} {
+			for k := uint64(5); k <= 6; k++ {
+				id++
+				m.Operation = append(m.Operation, drv.OpSpec{ID: id, NI: ni, Kind: "ADD", T: "nh", Key: k, Elec: &el}.Proto())
+				logs[0].acked = append(logs[0].acked, fmt.Sprintf("ADD %d nh %d", ni, k))
+			}
+			for k := uint64(5); k <= 8; k++ {
+				id++
+				m.Operation = append(m.Operation, drv.OpSpec{ID: id, NI: ni, Kind: "ADD", T: "nhg", Key: k, NHs: [][2]uint64{{5 + k%2, 1}}, Elec: &el}.Proto())
+			}
+		}
+		if rs, err := sess[0].SendBarrier(m); err != nil || len(rs) < 12 {
+			return fmt.Sprintf("prelude operations: %d responses, %v", len(rs), err), stats
+		}
+	}
 	for i := 0; i < c.Sessions; i++ {
 		i := i
 		wg.Add(1)
@@ -90,6 +118,7 @@ func runCase(c c11Case) (problem string, stats map[string]int) {
 			s := sess[i]
 			var last *drv.U128
 			opid := uint64(i+1) << 32
+			specs := map[uint64]drv.OpSpec{}
 			for round := 0; round < c.Rounds && s.Live(); round++ {
 				select {
 				case <-stop:
@@ -97,7 +126,7 @@ func runCase(c c11Case) (problem string, stats map[string]int) {
 				default:
 				}
 				if last == nil || r.Chance(1, 3) {
-					id := drv.U128{Hi: uint64(r.Intn(2)), Lo: uint64(1 + round*c.Sessions + i)}
+					id := drv.U128{Hi: uint64(r.Intn(2)), Lo: uint64(2 + round*c.Sessions + i)}
 					rs, err := s.SendN(&spb.ModifyRequest{ElectionId: id.Proto()}, 1)
 					if err != nil {
 						fail(fmt.Sprintf("session %d announce: %v\n%s", i, err, stacks()))
@@ -115,11 +144,16 @@ func runCase(c c11Case) (problem string, stats map[string]int) {
 				// operations in the session's own key space: next-hops 10i+1 .. 10i+4
 				n := 1 + r.Intn(3)
 				m := &spb.ModifyRequest{}
-				specs := []drv.OpSpec{}
 				for k := 0; k < n; k++ {
 					opid++
-					o := drv.OpSpec{ID: opid, NI: drv.Pick(r, 1, 2), Kind: drv.Pick(r, "ADD", "ADD", "DELETE"), T: "nh", Key: uint64(10*(i+1) + 1 + r.Intn(4)), Elec: last}
-					specs = append(specs, o)
+					ni := drv.Pick(r, 1, 2)
+					o := drv.OpSpec{ID: opid, NI: ni, Kind: drv.Pick(r, "ADD", "ADD", "DELETE"), T: "nh", Key: uint64(10*(i+1) + 1 + r.Intn(4)), Elec: last}
+					if r.Chance(1, 4) {
+						// a group over one of the session's own next-hops (held until that next-hop exists)
+						o = drv.OpSpec{ID: opid, NI: ni, Kind: drv.Pick(r, "ADD", "ADD", "ADD", "DELETE"), T: "nhg", Key: uint64(10*(i+1) + 1 + r.Intn(3)),
+							NHs: [][2]uint64{{uint64(10*(i+1) + 1 + r.Intn(4)), 1}}, Elec: last}
+					}
+					specs[opid] = o
 					m.Operation = append(m.Operation, o.Proto())
 				}
 				rs, err := s.SendBarrier(m)
@@ -128,10 +162,13 @@ func runCase(c c11Case) (problem string, stats map[string]int) {
 					return
 				}
 				mu.Lock()
-				for j, rsp := range rs {
+				for _, rsp := range rs {
 					for _, res := range rsp.GetResult() {
-						if res.GetStatus() == spb.AFTResult_RIB_PROGRAMMED && j < len(specs) {
-							logs[i].acked = append(logs[i].acked, fmt.Sprintf("%s %d nh %d", specs[j].Kind, specs[j].NI, specs[j].Key))
+						if sp, ok := specs[res.GetId()]; ok && res.GetStatus() == spb.AFTResult_RIB_PROGRAMMED && sp.T == "nh" {
+							logs[i].acked = append(logs[i].acked, fmt.Sprintf("%s %d nh %d", sp.Kind, sp.NI, sp.Key))
+						}
+						if res.GetStatus() == spb.AFTResult_RIB_PROGRAMMED {
+							stats["programmed_"+specs[res.GetId()].T]++
 						}
 					}
 				}
@@ -156,6 +193,80 @@ func runCase(c c11Case) (problem string, stats map[string]int) {
 				}
 				mu.Lock()
 				stats["gets"]++
+				mu.Unlock()
+			}
+		}()
+	}
+	if c.Departers > 0 {
+		wgB.Add(1)
+		go func() {
+			defer wgB.Done()
+			r := drv.NewRng(c.Seed*100 + 77)
+			opid := uint64(90) << 32
+			for {
+				select {
+				case <-stop:
+					return
+				case <-time.After(2 * time.Millisecond):
+				}
+				s, err := x.D.Connect()
+				if err != nil {
+					fail("departing session: " + err.Error())
+					return
+				}
+				if rs, err := s.SendN(&spb.ModifyRequest{Params: &spb.SessionParameters{Redundancy: 1, Persistence: 1}}, 1); err != nil || len(rs) != 1 {
+					fail(fmt.Sprintf("departing session could not negotiate: %v\n%s", err, stacks()))
+					return
+				}
+				// it announces a low id (usually not the highest; if it is, it is the primary and is recorded like any other)
+				el := drv.U128{Lo: uint64(1 + r.Intn(3))}
+				rs, err := s.SendN(&spb.ModifyRequest{ElectionId: el.Proto()}, 1)
+				if err != nil {
+					fail(fmt.Sprintf("departing session announce: %v\n%s", err, stacks()))
+					return
+				}
+				if len(rs) == 1 && rs[0].GetElectionId() != nil {
+					mu.Lock()
+					logs = append(logs, &sessLog{announced: []drv.U128{el}})
+					uuids = append(uuids, s.UUID)
+					mu.Unlock()
+				}
+				k := 2 + r.Intn(4)
+				m := &spb.ModifyRequest{}
+				for j := 0; j < k; j++ {
+					opid++
+					// its own instance (VRF-B) and key space: one response per operation, PROGRAMMED or FAILED
+					m.Operation = append(m.Operation, drv.OpSpec{ID: opid, NI: 3, Kind: "ADD", T: "nh", Key: uint64(900 + j), Elec: &el}.Proto())
+				}
+				if _, err := s.SendFailDuring(m, r.Intn(k)); err != nil {
+					fail(fmt.Sprintf("departing session: %v\n%s", err, stacks()))
+					return
+				}
+				mu.Lock()
+				stats["departures"]++
+				mu.Unlock()
+			}
+		}()
+	}
+	for g := 0; g < c.Abandoners; g++ {
+		g := g
+		wgB.Add(1)
+		go func() {
+			defer wgB.Done()
+			r := drv.NewRng(c.Seed*100 + 88 + int64(g))
+			for {
+				select {
+				case <-stop:
+					return
+				case <-time.After(time.Millisecond):
+				}
+				_, _, h := x.D.DoGetStall(drv.GetSpec{NI: "all", AFT: "ALL"}.GetReq(), r.Intn(8), time.Duration(drv.Pick(r, 0, 5, 5))*time.Millisecond)
+				if h != "" {
+					fail(h + "\n" + stacks())
+					return
+				}
+				mu.Lock()
+				stats["abandoned_gets"]++
 				mu.Unlock()
 			}
 		}()
@@ -253,6 +364,9 @@ func runCase(c c11Case) (problem string, stats map[string]int) {
 		cont, _ := x.D.S.VerifRIB().RIBContents()
 		for name, rr := range cont {
 			for idx := range rr.GetAfts().NextHop {
+				if drv.NICode(name) == 3 {
+					continue // the departing sessions' instance
+				}
 				got[fmt.Sprintf("%d %d", drv.NICode(name), idx)] = true
 			}
 		}
@@ -279,6 +393,7 @@ func runCase(c c11Case) (problem string, stats map[string]int) {
 
 func run(args []string) error {
 	f := drv.NewFlags("c11")
+	workerFlag := f.FS.Bool("worker", false, "run the cases of -replay in this process")
 	if err := f.Parse(args); err != nil {
 		return err
 	}
@@ -291,14 +406,42 @@ func run(args []string) error {
 		r := drv.NewRng(*f.Seed)
 		for i := 0; i < *f.N; i++ {
 			c := c11Case{Seed: *f.Seed*1000 + int64(i), Sessions: 2 + r.Intn(3), Readers: r.Intn(3), Flushers: r.Intn(2), Rounds: 60 + r.Intn(120)}
+			if i%2 == 1 {
+				c.Departers, c.Abandoners = r.Intn(2), r.Intn(3)
+				if i%4 == 1 {
+					c.Flushers = 0
+				}
+				if c.Departers+c.Abandoners == 0 {
+					c.Departers = 1
+				}
+			}
 			cases = append(cases, c)
 		}
 	}
 	rep := drv.Report{Property: "C11", Seed: *f.Seed, Shard: drv.ShardSize, Stats: map[string]int{}, Cases: len(cases),
-		Rule: "stress runs under the Go race detector: 2-4 Modify sessions announcing contested election ids and programming their own next-hop key spaces, 0-2 Get readers, 0-1 Flush caller, all concurrent on one server, watchdog on every RPC; quiescent checks: election id = maximum announced, primary announced it, without Flush the installed next-hops = fold of acknowledged operations; non-trivial = at least two sessions had announcements accepted and at least one Get or Flush overlapped; distinct by (seed, shape)"}
+		Rule: "stress runs under the Go race detector: 2-4 Modify sessions announcing contested election ids and programming their own next-hop and next-hop-group key spaces (groups may be held until their next-hop arrives), 0-2 Get readers, 0-1 Flush caller, in every second case also Modify sessions whose transport fails while a multi-operation request is being answered and Get readers that go away mid-stream (at once or after a stall), all concurrent on one server, watchdog on every RPC; quiescent checks: election id = maximum announced, primary announced it, without Flush the installed next-hops = fold of acknowledged operations; non-trivial = at least two sessions had announcements accepted and at least one Get or Flush overlapped; distinct by (seed, shape)"}
+	runOne := func(i int) drv.IsoResult {
+		p, st := runCase(cases[i])
+		return drv.IsoResult{Problem: p, Stats: st}
+	}
+	if *workerFlag {
+		return drv.IsoWorker(*f.Out, len(cases), runOne)
+	}
+	if err := drv.WriteJSON(*f.Out+"/cases.json", cases); err != nil {
+		return err
+	}
+	// every case runs in a worker process: a panic in a server goroutine ends the process it is in
+	results, err := drv.IsoParent("c11", *f.Out+"/cases.json", *f.Out, len(cases), func(i int) string { return fmt.Sprintf("%+v", cases[i]) })
+	if err != nil {
+		return err
+	}
 	nt := 0
 	for i, c := range cases {
-		p, st := runCase(c)
+		r, ok := results[i]
+		if !ok {
+			r = drv.IsoResult{Problem: "no result recorded"}
+		}
+		p, st := r.Problem, r.Stats
 		for k, v := range st {
 			rep.Stats[k] += v
 		}
@@ -310,7 +453,7 @@ func run(args []string) error {
 				rep.Violations = append(rep.Violations, v)
 			}
 		}
-		if st["announcements"] >= 2 && (st["gets"] > 0 || st["flushes"] > 0) {
+		if st["announcements"] >= 2 && (st["gets"] > 0 || st["flushes"] > 0 || st["departures"] > 0 || st["abandoned_gets"] > 0) {
 			nt++
 		}
 		if i < 2 {
@@ -318,9 +461,6 @@ func run(args []string) error {
 		}
 	}
 	rep.Nontrivial = nt
-	if err := drv.WriteJSON(*f.Out+"/cases.json", cases); err != nil {
-		return err
-	}
 	// the Coq side of C11 is about the regenerated lock table and the election model; no per-case model run
 	if err := drv.WriteCasesV(*f.Out, "From Coq Require Import List NArith.\nImport ListNotations.", "N", "(fun _ : list N => @nil N)", nil); err != nil {
 		return err
